@@ -139,6 +139,31 @@ Theorem C27_same_ticks_same_reduction :
 Proof. exact recovered_run_same_reduction. Qed.
 Print Assumptions C27_same_ticks_same_reduction.
 
+(* "... and reaches the same result as an uninterrupted run": past the transition the recovered process is in the
+   loop state that ANY process with the same result history is in (take KA = [] for the uninterrupted one): live task
+   instances, uid counter, armed timer, journal object and table, replay index, wait mode and purge flag are functions
+   of the history alone; what happens next is a function of that state and the environment's schedule. *)
+Theorem C27_recovered_state_is_an_uninterrupted_state :
+  forall (run : Z) (prog : list (option Z) -> pinfo),
+  (forall h live nx, sim prog h = Some (h, live, nx) -> NoDup (map fst live)) ->
+  forall dA KA dB KB,
+  replayable prog KA -> rows_enum run dA KA -> replayable prog KB -> rows_enum run dB KB ->
+  forall sA sB,
+  let a := exec run prog dA sA in
+  let b := exec run prog dB sB in
+  notmo (firstn (length KA) (l_hist a)) = true -> notmo (firstn (length KB) (l_hist b)) = true ->
+  l_hist a = l_hist b ->
+  (length KA <= length (l_hist a))%nat -> (length KB <= length (l_hist b))%nat ->
+  l_live a = l_live b /\ l_next a = l_next b /\ l_tmo a = l_tmo b
+  /\ j_entries (a_j (l_ad a)) = j_entries (a_j (l_ad b))
+  /\ j_idx (a_j (l_ad a)) = j_idx (a_j (l_ad b))
+  /\ l_mode a = l_mode b
+  /\ a_purged (l_ad a) = a_purged (l_ad b)
+  /\ crud_load run (l_db a) = crud_load run (l_db b)
+  /\ l_fb a = l_fb b.
+Proof. exact same_history_same_loop_state. Qed.
+Print Assumptions C27_recovered_state_is_an_uninterrupted_state.
+
 (* REFUTED without the no-timeout proviso: a wait that timed out is not journaled.  First process: b:0 (key 1) is
    running, the wait times out, the loop starts a:0 (key 0, e.g. a delayed retry); a:0 completes, then b:0 — journal
    [0;1].  Recovered process: b:0's recorded output is there at once, the expected a:0 has not been started yet, the
